@@ -47,6 +47,14 @@ theorem de_backend_steps (cfg : DECfg) :
     (deBackend cfg).iterate = DE_iterate cfg ∧ (deBackend cfg).initPos = DE_init_pos cfg ∧ (deBackend cfg).evaluate = DE_evaluate cfg :=
   ⟨rfl, rfl, rfl⟩
 
+/-! GeneticAlgorithmOptimizer -/
+theorem ga_offspring_unfold (cfg : GACfg) (parents : List Pos) (n : Nat) (acc : List Pos) (tape : Tape) :
+    gaOffspring cfg parents (n + 1) acc tape = GA_offspring_round cfg parents (gaOffspring cfg parents n) acc tape := by
+  rw [gaOffspring]; rfl
+theorem ga_cross_branch_eq (cfg : GACfg) (g : GASt) (cur : Nat) (tape : Tape) : GA_cross_branch cfg g cur tape = gaCross cfg g cur tape := rfl
+theorem ga_iterate_eq (cfg : GACfg) (g : GASt) : GA_iterate cfg g = gaIterate cfg g := rfl
+theorem ga_backend_steps (cfg : GACfg) : (gaBackend cfg).iterate = GA_iterate cfg := rfl
+
 /-- the three backends run the generated steps -/
 theorem pt_backend_steps (cfg : PTCfg) :
     (ptBackend cfg).iterate = PT_iterate cfg ∧ (ptBackend cfg).initPos = PT_init_pos cfg ∧ (ptBackend cfg).evaluate = PT_evaluate cfg :=
